@@ -51,6 +51,10 @@ CHECKS = {
    text="Per shape and class with symbolic labels and attribute values: round trips through hyperedge list/dict, bipartite edge list (directed too), labelled incidence matrix, bipartite graph with index maps (directed too), two-column dataframe, the standard dict (ids rendered and cast back) and the HIF dict (three classes) preserve the incidence set, labels/order and - for the two dicts - isolated nodes, empty edges, all attributes and the class; class-to-class constructors keep nodes, attributes at all three levels and each edge's member set (union of tail and head; plus all faces for a SimplicialComplex target); from_bipartite_graph is decided for every vertex insertion order and every orientation of every add_edge call of the input graph.",
    note="As C01; rendered ids are modelled by SymStr (decimal rendering injective); networkx/pandas/numpy see proxy labels as opaque hashables.",
    technique="bounded symbolic execution (z3) of converter pairs with symbolic labels; bipartite-graph insertion orders enumerated"),
+ "C13": dict(level=MC, ref="5/C13",
+   text="The real boundary_matrix and hodge_laplacian run on every downward-closed complex on <=4 vertices (thorough: plus the full 4-simplex) with one solver bit per simplex orientation, unbounded symbolic vertex labels (every label order through the reference sort) and symbolic simplex ids; one z3 query per matrix entry decides column support = faces, entries +-1, k+1 entries per column, B_{k-1}B_k = 0, and Laplacian = B_k^T B_k + B_{k+1} B_{k+1}^T and symmetric. A second harness assigns labels from a pool with strings, negative and multi-digit numbers (every injective assignment).",
+   note="numpy inside hodge_matrix is replaced by a dict-backed integer matrix during exploration; concrete replays use the real numpy. PSD and kernel dimension follow mathematically from the checked identities and are not separately decided.",
+   technique="bounded symbolic execution (z3) of boundary_matrix with symbolic orientation bits, labels and ids; per-entry queries"),
 }
 NOT_APPLICABLE = {
  "C11": "disk round trips: every value that reaches a file passes through json/numpy C encoders which reject or realise a symbolic proxy, so no solver variable can cross the file boundary; in-memory halves are decided under C10/C04",
